@@ -406,3 +406,63 @@ func (a symAddr) load() value {
 }
 
 var _ = token.ADD
+
+// deepHasSym reports whether an aggregate value holds symbolic data.
+func deepHasSym(v value) bool {
+	switch x := v.(type) {
+	case sym, symstr:
+		return true
+	case structure:
+		for _, e := range x {
+			if deepHasSym(e) {
+				return true
+			}
+		}
+	case array:
+		for _, e := range x {
+			if deepHasSym(e) {
+				return true
+			}
+		}
+	case iface:
+		return deepHasSym(x.v)
+	}
+	return false
+}
+
+// deepEqTerm is Go's == on comparable values as a term.
+func deepEqTerm(t types.Type, x, y value) *Term {
+	switch a := x.(type) {
+	case structure:
+		b := y.(structure)
+		r := TTrue
+		for i := range a {
+			r = TAnd(r, deepEqTerm(nil, a[i], b[i]))
+		}
+		return r
+	case array:
+		b := y.(array)
+		r := TTrue
+		for i := range a {
+			r = TAnd(r, deepEqTerm(nil, a[i], b[i]))
+		}
+		return r
+	case iface:
+		b := y.(iface)
+		if !sameType(a.t, b.t) {
+			return TFalse
+		}
+		if a.t == nil {
+			return TTrue
+		}
+		return deepEqTerm(a.t, a.v, b.v)
+	}
+	if hasSym(x) || hasSym(y) {
+		return eqTerm(x, y)
+	}
+	if t == nil {
+		// element of an aggregate: scalars, strings and pointers compare natively
+		return TBool(x == y)
+	}
+	return TBool(eqnil(t, x, y))
+}
